@@ -10,6 +10,8 @@
 //     of IsBlockedClient, isBlockedHost, preBlockedResponse, NewMsgSERVFAIL,
 //     clientIDCache.Set, clientIDFromDNSContext and of its `return nil`;
 //  2. internal/dnsforward registers the server as dnsproxy's BeforeRequestHandler;
+//  4. (*Server).Prepare calls initDefaultSettings before newAccessCtx; the literal of
+//     defaultBlockedHosts and its use in initDefaultSettings;
 //  3. dnsproxy (the version go.mod selects) proxy.(*Proxy).handleDNSRequest: the
 //     source order of handleBefore, isRatelimited, RequestHandler, Resolve, respond.
 //
@@ -25,6 +27,7 @@ import (
 	"os"
 	"os/exec"
 	"path/filepath"
+	"strconv"
 	"strings"
 )
 
@@ -134,6 +137,28 @@ func leanList(evs []event) string {
 	return "[" + strings.Join(s, ", ") + "]"
 }
 
+func leanStrings(l []string) string {
+	var q []string
+	for _, x := range l {
+		q = append(q, strconv.Quote(x))
+	}
+
+	return "[" + strings.Join(q, ", ") + "]"
+}
+
+func leanBytes(l []string) string {
+	var q []string
+	for _, x := range l {
+		var b []string
+		for _, c := range []byte(x) {
+			b = append(b, fmt.Sprint(c))
+		}
+		q = append(q, "["+strings.Join(b, ", ")+"]")
+	}
+
+	return "[" + strings.Join(q, ", ") + "]"
+}
+
 func main() {
 	repo := os.Getenv("VERIF_REPO")
 	if repo == "" {
@@ -178,6 +203,58 @@ func main() {
 		})
 	}
 
+	// 4. (*Server).Prepare: initDefaultSettings (1) before newAccessCtx (2), and
+	// the literal of defaultBlockedHosts.
+	prep := events(findMethod(df, "Server", "Prepare"), map[string]int{"initDefaultSettings": 1, "newAccessCtx": 2}, 0)
+	var defHosts []string
+	defFound := 0
+	for _, f := range df {
+		for _, d := range f.Decls {
+			gd, ok := d.(*ast.GenDecl)
+			if !ok || gd.Tok != token.VAR {
+				continue
+			}
+			for _, sp := range gd.Specs {
+				vs := sp.(*ast.ValueSpec)
+				if len(vs.Names) != 1 || vs.Names[0].Name != "defaultBlockedHosts" || len(vs.Values) != 1 {
+					continue
+				}
+				cl, isCL := vs.Values[0].(*ast.CompositeLit)
+				if !isCL {
+					die("defaultBlockedHosts is not a composite literal")
+				}
+				defFound++
+				for _, e := range cl.Elts {
+					bl, isBL := e.(*ast.BasicLit)
+					if !isBL || bl.Kind != token.STRING {
+						die("defaultBlockedHosts: element is not a string literal")
+					}
+					v, uerr := strconv.Unquote(bl.Value)
+					if uerr != nil {
+						die("%v", uerr)
+					}
+					defHosts = append(defHosts, v)
+				}
+			}
+		}
+	}
+	if defFound != 1 {
+		die("defaultBlockedHosts: %d declarations", defFound)
+	}
+	// the BlockedHosts defaulting inside initDefaultSettings
+	defaulting := 0
+	ast.Inspect(findMethod(df, "Server", "initDefaultSettings").Body, func(n ast.Node) bool {
+		if as, ok := n.(*ast.AssignStmt); ok && len(as.Lhs) == 1 && len(as.Rhs) == 1 {
+			l, lok := as.Lhs[0].(*ast.SelectorExpr)
+			r, rok := as.Rhs[0].(*ast.Ident)
+			if lok && rok && l.Sel.Name == "BlockedHosts" && r.Name == "defaultBlockedHosts" {
+				defaulting++
+			}
+		}
+
+		return true
+	})
+
 	// 3. dnsproxy of go.mod
 	cmd := exec.Command("go1.26", "list", "-m", "-f", "{{.Dir}}", "github.com/AdguardTeam/dnsproxy")
 	cmd.Dir = repo
@@ -204,6 +281,12 @@ func main() {
 		fmt.Sprintf("def hookRegistrations : Nat := %d\n\n", registered) +
 		"/-- calls of dnsproxy's (*Proxy).handleDNSRequest in source order -/\n" +
 		"def proxyEvents : List Nat := " + leanList(prox) + "\n\n" +
+		"/-- calls of (*Server).Prepare in source order: 1 initDefaultSettings, 2 newAccessCtx -/\n" +
+		"def prepareEvents : List Nat := " + leanList(prep) + "\n\n" +
+		"/-- the literal of `defaultBlockedHosts` -/\n" +
+		"def defaultBlockedHosts : List (List Nat) := " + leanBytes(defHosts) + "  -- " + leanStrings(defHosts) + "\n\n" +
+		"/-- assignments `….BlockedHosts = defaultBlockedHosts` in initDefaultSettings -/\n" +
+		fmt.Sprintf("def hostsDefaulting : Nat := %d\n\n", defaulting) +
 		"end AGH.Gen.C03\n"
 	if err = os.WriteFile(filepath.Join(verif, "lean/AGH/Gen/C03Hook.lean"), []byte(lean), 0o644); err != nil {
 		die("%v", err)
@@ -212,7 +295,7 @@ func main() {
 	facts := map[string]any{
 		"summary": fmt.Sprintf("HandleBefore events %s; BeforeRequestHandler registrations %d; dnsproxy %s handleDNSRequest events %s",
 			leanList(hook), registered, filepath.Base(filepath.Dir(pdir)), leanList(prox)),
-		"hook": hook, "registered_at": regPos, "proxy": prox,
+		"hook": hook, "registered_at": regPos, "proxy": prox, "prepare": prep, "default_blocked_hosts": defHosts,
 	}
 	b, _ := json.MarshalIndent(facts, "", " ")
 	if err = os.WriteFile(filepath.Join(verif, "build/C03/facts.json"), b, 0o644); err != nil {
